@@ -11,6 +11,7 @@ def build_cases(ctx, reg):
     quick = ctx.tier == "quick"
     cases = iosuite.corpus_cases("C01")
     cases += iogen.scalar_matrix(g)
+    cases += iogen.named_scalar_matrix(g)
     cases += iosuite.strings_family(g)
     cases += iosuite.utf8_shapes_family(g, quick)
     cases += iosuite.maps_family(g)
